@@ -4,7 +4,9 @@ SPEC = dict(
     harness=[dict(pkg="share/shwap/p2p/shrex", test="TestVerifC09", timeout=900, timeout_thorough=3000)],
     allowed_axioms=[],
     rule=("a case = one raw request byte string written to a stream of one of the five shrex protocols of the real Server (over a real "
-          "store holding squares of ODS width 1,2,4,8,16), possibly with a fault injected behind the server (GetByHeight fails / Size() "
+          "store holding squares of ODS width 1,2,4,8,16; the server's AccessorGetter is the store itself, or - for the not-found family, a "
+          "served request, zero height, a tight budget, two faults and the three beyond-the-square requests per protocol and square - "
+          "store.CachedStore (Store.WithCache) or a decorator wrapping every error with %w), possibly with a fault injected behind the server (GetByHeight fails / Size() "
           "fails / the accessor call of the ResponseReader fails / it panics), with the observed outcome class (reset / reset after a "
           "refused reservation / NOT_FOUND / INTERNAL / OK+payload) and the counted accessor opens/closes and reserved/released bytes; "
           "or one ResponseSize(edsSize) evaluation. Requests: ODS width 1,2,4 exhaustive - every row index and every (row,col) from 0 to "
@@ -15,7 +17,8 @@ SPEC = dict(
           "size+junk, a memory budget of 0 / a few hundred bytes, the four faults, a client that resets mid-request (oracle only); 1200 "
           "random or bit-flipped byte strings. Requests that are valid, in bounds and answerable additionally go through the real Client "
           "and the real container verification against the block's roots and the stored shares; the real Client must report ErrNotFound "
-          "for an unknown height. Non-trivial = every handler case that is not a plain valid request, or a valid one that was served; "
+          "for an unknown height (through each of the three getters). Well-formedness of a request is decided by the harness from the wire "
+          "grammar alone (non-zero height, a namespace go-square accepts for data, from<to), not by the code under test. Non-trivial = every handler case that is not a plain valid request, or a valid one that was served; "
           "distinct = distinct Coq term."),
     level_text=("Machine-checked theorems (Coq) over an executable model of the handler inside its recovery middleware, for EVERY request "
                 "byte string, store, memory budget and inner accessor behaviour (container / error / panic): a payload goes out only when "
@@ -23,13 +26,14 @@ SPEC = dict(
                 "is the accessor's container for exactly that identifier (served_only_wellformed, serve_complete); the identifier a "
                 "client's constructor accepts for the stored square, encoded as the client does, meets these hypotheses and the client "
                 "returns the container when its verification accepts it (serve_client; that honest containers verify is C01/C05 and is "
-                "checked on the real containers for every served reply by the harness); an unknown height yields NOT_FOUND; short, "
+                "checked on the real containers for every served reply by the harness); an unknown height yields NOT_FOUND whether the getter reports the bare store.ErrNotFound or one wrapped with context "
+                "(C09_notfound quantifies over [wrapped]); short, "
                 "undecodable (zero height, bad namespace, from>=to) requests are reset; out-of-bounds ones get INTERNAL or, when the "
                 "declared size exceeds the budget, a reset - never data; a panicking accessor is recovered into a reset; on every path "
                 "accessors opened = closed (at most one) and bytes reserved = released, proved from the defer structure "
                 "(deferred_balanced) from any starting state; the reservation computed from attacker-chosen fields is within [0, 2^41) "
                 "for every byte string and within the size of the stored square for a request that passes the bounds check. The model "
-                "is replayed against the real Server on ~4300 requests per run inside Coq. "
+                "is replayed against the real Server on ~4500 requests per run inside Coq. "
                 "Partial: libp2p's resource manager is replaced by a counting scope with a fixed budget; mocknet streams have no "
                 "deadlines, so a client that stalls mid-request (as opposed to one that resets) is not exercised; panics and hangs are "
                 "the oracle's (L3) verdict; a share range is 'well formed' only inside one namespace (RangeNamespaceData is the data of "
@@ -40,6 +44,7 @@ SPEC = dict(
         "int(math.Log2(float64(edsSize))) is modelled as Z.log2 (floor); compared on widths 1..2048; edsSize 0 is excluded (a stored square has EDS width >= 2)",
         "the inner accessor (what the stored square answers) and the container verification are abstract in the theorems; the harness decides 'answerable' from the stored shares alone (everything in bounds, except a range spanning two namespaces) and verifies every served payload with the real containers against the real roots and the stored data",
         "mocked: libp2p network (mocknet), the stream's resource scope (a counting scope with a fixed byte budget standing in for rcmgr), the per-IP rate limiter (disabled for the run: thousands of requests come from one address); rate limiting and SetService refusals are not modelled; faults are injected by wrapping the store and the accessor it returns (outside the validating wrapper)",
+        "the getter in front of the store is switched per request inside the harness's counting AccessorGetter, which hands the chosen getter's result to the server unchanged; other wrappers a node could put in front of the store are represented by the %w decorator",
         "Go int as unbounded Z: fields are at most 32 bits wide on the wire, reservations stay below 2^41 (theorem)",
     ],
 )
